@@ -48,6 +48,20 @@ def scenario(name):
                     rc, out, err = run(["--check", "--output-format", fmt] + files, d)
                     if rc != 2: return False, f"--check --output-format {fmt} {' '.join(files)} (c.lua does not parse) exited {rc}, expected 2"
             if r("c.lua") != BROKEN: return False, "unparsable file modified"
+            # "2 when any file could not be read, parsed or verified": a file that is not valid UTF-8, a path that does not exist, a file whose
+            # formatted form fails --verify (its require order changes under --sort-requires) — in every output format, next to a formatted
+            # and an unformatted file, in both orders (these failures travel through the logger, not through the parse-error branch)
+            latin1 = b"local   s = 'caf\xe9'\n"; req = b'local b = require("b")\nlocal a = require("a")\n'
+            w("l.lua", latin1); w("q.lua", req)
+            for fmt in ("Standard", "Unified", "Json", "Summary"):
+                for extra, files, what in (([], ["b.lua", "l.lua"], "l.lua is not valid UTF-8"), ([], ["l.lua", "a.lua"], "l.lua is not valid UTF-8"),
+                                           ([], ["a.lua", "l.lua"], "l.lua is not valid UTF-8"), ([], ["b.lua", "missing.lua"], "missing.lua does not exist"),
+                                           (["--verify", "--sort-requires"], ["q.lua", "b.lua"], "q.lua fails --verify"),
+                                           (["--num-threads", "1"], ["b.lua", "l.lua", "a.lua"], "l.lua is not valid UTF-8")):
+                    rc, out, err = run(["--check", "--output-format", fmt] + extra + files, d)
+                    if rc != 2: return False, f"--check --output-format {fmt} {' '.join(extra + files)} ({what}) exited {rc}, expected 2"
+                    if r("l.lua") != latin1 or r("q.lua") != req or r("a.lua") != UNFORMATTED: return False, f"--check ({fmt}) modified a file"
+                    if os.path.exists(os.path.join(d, "missing.lua")): return False, f"--check ({fmt}) created a file"
             # a file that differs from its formatted form only in its line endings still differs
             w("crlf.lua", b"local x = 1\r\nlocal y = 2\r\n")
             for fmt in ("Standard", "Unified", "Json", "Summary"):
